@@ -2,3 +2,43 @@
 #[allow(unused_imports)]
 use super::*;
 include!("/verif/replay/in_crate/common.rs");
+use crate::core::consensus::peers::peer::{Peer, PeerStatus};
+
+/// C17 (last clause): when a connection authenticates under a key the node already knows, only a peer object that
+/// carries that key and is NOT connected may be taken out of the table; connected peers — in particular an
+/// authenticated peer with the same key — stay where they are, and other keys keep their by-key entry
+#[test]
+fn reconnection_never_removes_a_connected_peer() {
+    let mut rng = Rng::from_env();
+    for round in 0..2000 {
+        let mut pc = PeerCollection::default();
+        let keys: Vec<SaitoPublicKey> = (1..4u8).map(|k| [k; 33]).collect();
+        let n = rng.below(6);
+        let mut desc = vec![];
+        for i in 1..=n {
+            let mut p = Peer::new(i);
+            let k = rng.below(4);
+            if k < 3 { p.public_key = Some(keys[k as usize]); }
+            p.peer_status = match rng.below(3) { 0 => PeerStatus::Connected, 1 => PeerStatus::Disconnected(0, 0), _ => PeerStatus::Connecting };
+            if let Some(key) = p.public_key { if rng.below(2) == 0 { pc.address_to_peers.insert(key, i); } }
+            desc.push((i, p.public_key.map(|k| k[0]), matches!(p.peer_status, PeerStatus::Connected)));
+            pc.index_to_peers.insert(i, p);
+        }
+        let key = keys[rng.below(3) as usize];
+        let before: Vec<(u64, Option<SaitoPublicKey>, bool)> = pc.index_to_peers.iter().map(|(i, p)| (*i, p.public_key, matches!(p.peer_status, PeerStatus::Connected))).collect();
+        let by_key_before = pc.address_to_peers.clone();
+        let removed = pc.remove_reconnected_peer(&key);
+        let what = format!("round {}: peers (index, key, connected) {:?}, handshake completed under key {}", round, desc, key[0]);
+        for (i, _k, connected) in before.iter() {
+            if *connected && !pc.index_to_peers.contains_key(i) { witness(format!("a CONNECTED peer (index {}) was removed from the table: {}", i, what)); }
+        }
+        match removed {
+            Some(p) => {
+                if p.public_key != Some(key) || matches!(p.peer_status, PeerStatus::Connected) { witness(format!("removed peer {} does not carry the key or is connected: {}", p.index, what)); }
+                if pc.index_to_peers.len() + 1 != before.len() { witness(format!("more than one peer removed: {}", what)); }
+            }
+            None => { if pc.index_to_peers.len() != before.len() { witness(format!("nothing reported as removed but the table shrank: {}", what)); } }
+        }
+        for (k, v) in by_key_before.iter() { if *k != key && pc.address_to_peers.get(k) != Some(v) { witness(format!("the by-key entry of another key changed: {}", what)); } }
+    }
+}
